@@ -993,6 +993,7 @@ func Run(ctx *core.Ctx) {
 		gridAreaProbe(ctx, bin)
 		nonFiniteProbe(ctx, bin)
 		clipCircleProbe(ctx, bin)
+		bufferProbe(ctx, bin)
 		circleFeatureProbe(ctx, bin)
 	}
 	if ctx.Violations() == 0 {
